@@ -903,3 +903,42 @@ Proof.
     + rewrite map_fst_combine by now rewrite digits_length.
       intro Hin. exact (NoDup_app_disj _ _ k Hnd Hin Hk).
 Qed.
+
+(* ================================================================================== *)
+(* I. for_node and the class registry: earlier for-nodes never leak into a new one       *)
+
+Lemma sassoc_del_same {B} k (d : list (string * B)) : sassoc k (del String.eqb k d) = None.
+Proof.
+  unfold sassoc. induction d as [|[k' v] r IH]; [reflexivity|].
+  simpl. destruct (String.eqb k k') eqn:E; [exact IH|]. simpl. now rewrite E.
+Qed.
+
+(* whatever classes earlier calls registered -- however they spelled their fields -- the class
+   a for_node call works with is the one built from ITS arguments (or its creation error) *)
+Theorem for_node_class_fresh reg q :
+  snd (for_node_class reg q) =
+  match check_class (cfg_of q) with Some e => Err e | None => Ok (cfg_of q) end.
+Proof.
+  unfold for_node_class. cbv zeta. rewrite sassoc_del_same.
+  destruct (check_class (cfg_of q)); reflexivity.
+Qed.
+
+Lemma scenario_of_fresh q steps :
+  scenario_of (match check_class (cfg_of q) with Some e => Err e | None => Ok (cfg_of q) end) steps
+  = scenario (cfg_of q) steps.
+Proof. unfold scenario, create. destruct (check_class (cfg_of q)); reflexivity. Qed.
+
+(* a session of for-nodes behaves as that many independent nodes, each of its own configuration *)
+Definition fresh_class (q : request) : res cfg :=
+  match check_class (cfg_of q) with Some e => Err e | None => Ok (cfg_of q) end.
+
+Theorem session_independent reg qs :
+  session_go reg qs =
+  map (fun qs : request * list step =>
+         OL [OS (name_of (fst qs) (fresh_class (fst qs))); scenario (cfg_of (fst qs)) (snd qs)]) qs.
+Proof.
+  revert reg. induction qs as [|[q steps] r IH]; intro reg; [reflexivity|].
+  simpl session_go. pose proof (for_node_class_fresh reg q) as H.
+  destruct (for_node_class reg q) as [reg' c]. simpl in H. subst c.
+  rewrite scenario_of_fresh, IH. reflexivity.
+Qed.
